@@ -549,7 +549,9 @@ PENDING_SITES = {
     ("janet_async_end", "dec"): ("guard", "ev_callback", "only when the fiber was listening; the callback is cleared in the same function"),
     ("janet_loop1", "inc"): ("assigns-flag", "JANET_FIBER_EV_FLAG_SUSPENDED", "the task's fiber is marked suspended"),
     ("janet_loop1", "dec"): ("guard-flag", "JANET_FIBER_EV_FLAG_SUSPENDED", "only for a fiber marked suspended; the flag is cleared next"),
-    ("janet_ev_handle_selfpipe", "dec"): ("guard", "cb", "one decrement per message carrying a callback read from the self-pipe"),
+    # (until the POSTPAIR fix this table said `guard cb`: it had been filled in from what the code did, and the code was
+    #  wrong - janet_ev_post_event increments for every message, with or without callback)
+    ("janet_ev_handle_selfpipe", "dec"): ("guard", "status", "one decrement per message read from the self-pipe (the increment is janet_ev_post_event's)"),
     ("janet_ev_threaded_call", "inc"): ("calls", "pthread_create", "a worker thread was started whose completion message is pending"),
     ("janet_deinit_block", "dec"): ("guard", "ev_state", "a collected fiber that was still listening"),
 }
